@@ -321,6 +321,15 @@ class Oracle:
                       if y[0][0] == 'err' and y[0][1] == 'WorkerLostError']
         if lost_items:
             return
+        if mj.kind == 'imap' and len(mj.yielded) < (part.i or 0):
+            # an ordered iterator cannot yield this part before the earlier
+            # ones; the loss counts as reported when it is filed under this
+            # part's own index, waiting for its turn
+            filed = getattr(mj.handle, '_unsorted', {}).get(part.i)
+            if filed is not None and filed[0] is False and \
+                    simpool.fail_desc(filed[1])[0] == 'WorkerLostError':
+                self.sim.labels.add('imap_loss_waits_for_its_turn')
+                return
         raise Violation('C04/v-not-surfaced/%s' % mj.kind,
                         'job %d: owner %d of part %r reaped at %.2f, timeout %.2f:'
                         ' the iterator shows no WorkerLostError item at %.2f '
